@@ -25,26 +25,58 @@ ASSUMPTIONS = [
 
 A5 = (-2.0, -1.0, 0.0, 1.0, 2.0)
 A7 = (-3.0, -2.0, -1.0, 0.0, 1.0, 2.0, 3.0)
+A9 = (-4.0, -3.0, -2.0, -1.0, 0.0, 1.0, 2.0, 3.0, 4.0)
+TINY = 2.0 ** -28
+NEAR = (0.0, 1.0, 1.0 + TINY, 2.0 - TINY, 2.0)                  # distinct values closer than any plausible tolerance
+SMALL = tuple(2.0 ** -30 * v for v in (-2.0, -1.0, 0.0, 1.0, 2.0))   # a whole signal of tiny magnitude
 
 
 def bounds(tier):
     if tier == "quick":
-        return {"alphabet": A5, "n": [2, 7]}
-    return [{"alphabet": A5, "n": [2, 9]}, {"alphabet": A7, "n": [2, 7]}]
+        return [{"alphabet": A5, "n": [2, 7]}, {"alphabet": "near ties " + repr(NEAR), "n": [2, 6]}, {"alphabet": "2**-30 * {-2..2}", "n": [2, 5]},
+                {"alphabet": A7, "n": [3, 9], "only": "strictly alternating signals (pure reversal sequences, deep nesting)"}]
+    return [{"alphabet": A5, "n": [2, 9]}, {"alphabet": A7, "n": [2, 7]}, {"alphabet": "near ties " + repr(NEAR), "n": [2, 8]},
+            {"alphabet": "2**-30 * {-2..2}", "n": [2, 7]},
+            {"alphabet": A7, "n": [3, 11], "only": "strictly alternating signals"}, {"alphabet": A9, "n": [3, 9], "only": "strictly alternating signals"}]
 
 
 def prepare(tier):
     build_ext.ensure()
 
 
+def alternating(alpha, n):
+    """all signals of length n over alpha whose consecutive steps strictly alternate in direction (every interior
+    sample is a reversal): the kernels' stack logic sees only reversal sequences, so this reaches deep nesting cheaply"""
+    def rec(prefix, up):
+        if len(prefix) == n:
+            yield tuple(prefix)
+            return
+        last = prefix[-1]
+        for v in alpha:
+            if (v > last) if up else (v < last):
+                prefix.append(v)
+                yield from rec(prefix, not up)
+                prefix.pop()
+    for first in alpha:
+        for up in (True, False):
+            yield from rec([first], up)
+
+
 def shards(tier):
-    plan = [(A5, 2, 7)] if tier == "quick" else [(A5, 2, 9), (A7, 2, 7)]
+    if tier == "quick":
+        plan = [(A5, 2, 7), (NEAR, 2, 6), (SMALL, 2, 5)]
+        alt = [(A7, 3, 9)]
+    else:
+        plan = [(A5, 2, 9), (A7, 2, 7), (NEAR, 2, 8), (SMALL, 2, 7)]
+        alt = [(A7, 3, 11), (A9, 3, 9)]
     out = []
     for alpha, nmin, nmax in plan:
         for n in range(nmin, nmax + 1):
-            if alpha is A7 and n <= 0:
-                continue
             for block in chunked(signals(alpha, n, n), 4000):
+                out.append(block)
+    for alpha, nmin, nmax in alt:
+        for n in range(nmin, nmax + 1):
+            for block in chunked(alternating(alpha, n), 4000):
                 out.append(block)
     return out
 
